@@ -264,6 +264,34 @@ func zvC26Scenarios() []zvScenario {
 			},
 		}
 	})
+	// what the API servers do with a dump (bgp_api.go DumpRIBIn/DumpRIBOut, the RIS server): convert every route, while
+	// UPDATEs replace and withdraw the paths of a prefix the tables already hold
+	mkFrom("R13 re-announcement, withdrawal of a held prefix||api dump converted (ToProto)", []string{evT15, evOpen, evKA, evUpd1}, func(s *zvSess) []func() {
+		ip := zvPeerIP(s.cfg.A)
+		return []func(){
+			func() {
+				s.cA.deliver(zvwUpdate(nil, []zvwAttr{zvwOrigin(0), zvwASPath(true, zvRemoteAS, 65010), zvwNextHop(10, 0, 0, 9), zvwMED(7)}, zvwNLRI([]zvwPrefix{zvR1}, false)))
+				s.cA.deliver(zvwUpdate(zvwNLRI([]zvwPrefix{zvR1}, false), nil, nil))
+			},
+			func() {
+				if r := s.w.srv.GetRIBIn(s.w.vrf, ip, packet.AFIIPv4, packet.SAFIUnicast); r != nil {
+					for _, rt := range r.Dump() {
+						rt.ToProto()
+					}
+				}
+				if r := s.w.srv.GetRIBOut(s.w.vrf, ip, packet.AFIIPv4, packet.SAFIUnicast); r != nil {
+					for _, rt := range r.Dump() {
+						rt.ToProto()
+					}
+				}
+			},
+			func() {
+				for _, rt := range s.w.rib4.Dump() {
+					rt.ToProto()
+				}
+			},
+		}
+	})
 	mk("R5 stop||metrics", func(s *zvSess) []func() {
 		return []func(){func() { s.pA.stop() }, func() { s.w.srv.Metrics() }, func() { s.w.srv.GetPeers() }}
 	})
